@@ -19,6 +19,7 @@ type FuncResult struct {
 	Errors     []string // outside-subset / engine errors (undecided parts)
 	Assumption []string
 	Assumed    bool
+	SweepOnly  bool
 }
 
 func (w *World) verifyContract(con *Contract, opts *RunOpts) (res *FuncResult) {
@@ -30,6 +31,18 @@ func (w *World) verifyContract(con *Contract, opts *RunOpts) (res *FuncResult) {
 	}
 	res.Fn = fn
 	res.Stats.SSAInstrs = countInstrs(fn)
+	sweepOnly := true
+	for _, cl := range con.Clauses {
+		if cl.Kind != "errdrop" && cl.Kind != "maprange" && cl.Kind != "props" {
+			sweepOnly = false
+		}
+	}
+	if sweepOnly {
+		// the clauses of this contract are consumed by the error-propagation and
+		// map-iteration families; there is nothing to execute symbolically
+		res.SweepOnly = true
+		return res
+	}
 	if len(con.clauses("trusted")) > 0 && len(con.clauses("ensures")) == 0 {
 		// an assumed contract (used at call sites only): nothing to prove here;
 		// it is listed among the assumptions
